@@ -115,7 +115,7 @@ prop("C15", "proof", "refinement of ParserBuffer to (fed, Off) with the 7-byte m
      "as C01", GEN_RULE, "§8 C15")
 prop("C16", "proof", "NewParser ⇔ Verify∘SetDefaults over Int fields; the bodies of every SetDefaults/Verify are re-translated from the Go source on every run and proved equal to the model (GenProps); panic guards in the model are values; boundary configurations through several fills under recover and watchdog; large geometries (oracle only)",
      "Lean 4 proof + regenerated Go->Lean translation of the configuration code + differential correspondence on wild configurations",
-     [S("c-config", 300, 5000, ["c.newparser.accepted", "c.newparser.rejected"]), S("p-general", 200, 3000, ["p.parse.matches"]), S("p-wrap", 100, 1500, ["w.eof"]), S("p-large", 4, 80, ["p.parse.matches", "p.match.offset>=64K"], hang="120s")],
+     [S("c-config", 300, 5000, ["c.newparser.accepted", "c.newparser.rejected"]), S("p-general", 200, 3000, ["p.parse.matches"]), S("p-wildcfg", 300, 6000, ["p.parse.matches", "p.cfg.rejected"]), S("p-wrap", 100, 1500, ["w.eof"]), S("p-large", 4, 80, ["p.parse.matches", "p.match.offset>=64K"], hang="120s")],
      "BufferSize ≤ MaxInt32 for GSAP/OSAP is a stated bound (D18)", GEN_RULE, "§8 C16")
 prop("C17", "proof", "n, k, l and Off exactness as part of the decoder refinement; scripts biased to a full buffer with already-read bytes",
      "Lean 4 refinement proof + differential correspondence",
